@@ -115,11 +115,11 @@ pub fn give_up(reason: &str) -> ! {
         std::process::exit(1);
     }
     println!(
-        "{{\"distinct_inputs\":0,\"distinct_nontrivial\":0,\"parser_runs\":0,\"bound\":\"the run was cut short by the failing case\",\"failures\":[{{\"check\":{:?},\"input\":{:?},\"replay\":[{}],\"detail\":{:?}}}]}}",
-        check,
-        if desc.is_empty() { cur } else { desc },
-        replay.iter().map(|s| format!("{:?}", s)).collect::<Vec<_>>().join(","),
-        reason
+        "{{\"distinct_inputs\":0,\"distinct_nontrivial\":0,\"parser_runs\":0,\"bound\":\"the run was cut short by the failing case\",\"failures\":[{{\"check\":{},\"input\":{},\"replay\":[{}],\"detail\":{}}}]}}",
+        json_str(check),
+        json_str(if desc.is_empty() { cur } else { desc }),
+        replay.iter().map(|s| json_str(s)).collect::<Vec<_>>().join(","),
+        json_str(reason)
     );
     std::process::exit(0);
 }
@@ -312,6 +312,24 @@ pub struct Report {
     pub nontrivial: u64,
     pub bound: String,
 }
+/// JSON string literal (Rust's `{:?}` is not JSON: it writes `\u{2}` for control characters)
+pub fn json_str(s: &str) -> String {
+    let mut o = String::with_capacity(s.len() + 2);
+    o.push('"');
+    for c in s.chars() {
+        match c {
+            '"' => o.push_str("\\\""),
+            '\\' => o.push_str("\\\\"),
+            '\n' => o.push_str("\\n"),
+            '\r' => o.push_str("\\r"),
+            '\t' => o.push_str("\\t"),
+            c if (c as u32) < 0x20 || c == '\u{7f}' => o.push_str(&format!("\\u{:04x}", c as u32)),
+            c => o.push(c),
+        }
+    }
+    o.push('"');
+    o
+}
 impl Report {
     pub fn new() -> Report {
         Report { failures: vec![], runs: 0, inputs: 0, nontrivial: 0, bound: String::new() }
@@ -328,20 +346,20 @@ impl Report {
             .iter()
             .map(|f| {
                 format!(
-                    "{{\"check\":{:?},\"input\":{:?},\"replay\":[{}],\"detail\":{:?}}}",
-                    f.check,
-                    f.input,
-                    f.replay.iter().map(|s| format!("{:?}", s)).collect::<Vec<_>>().join(","),
-                    f.detail.chars().take(1500).collect::<String>()
+                    "{{\"check\":{},\"input\":{},\"replay\":[{}],\"detail\":{}}}",
+                    json_str(&f.check),
+                    json_str(&f.input.chars().take(3000).collect::<String>()),
+                    f.replay.iter().map(|s| json_str(s)).collect::<Vec<_>>().join(","),
+                    json_str(&f.detail.chars().take(1500).collect::<String>())
                 )
             })
             .collect();
         format!(
-            "{{\"distinct_inputs\":{},\"distinct_nontrivial\":{},\"parser_runs\":{},\"bound\":{:?},\"failures\":[{}]}}",
+            "{{\"distinct_inputs\":{},\"distinct_nontrivial\":{},\"parser_runs\":{},\"bound\":{},\"failures\":[{}]}}",
             self.inputs,
             self.nontrivial,
             self.runs,
-            self.bound,
+            json_str(&self.bound),
             fj.join(",")
         )
     }
